@@ -266,7 +266,7 @@ FloatOp(h, op, qa, qb) == \* both operands as q/16
     [] op = "*" -> IF Abs(qa) < 32768 /\ Abs(qb) < 32768 /\ (qa * qb) % 16 = 0
                       /\ ~(qa * qb = 0 /\ (qa < 0 \/ qb < 0))
                    THEN OkFloat(h, (qa * qb) \div 16) ELSE Excluded("float")
-    [] op = "/" -> IF qb # 0 /\ Abs(qa) < 1048576 /\ (qa * 16) % qb = 0 /\ ~(qa = 0 /\ qb < 0)
+    [] op = "/" -> IF qb # 0 /\ Abs(qa) < 1048576 /\ (qa * 16) % Abs(qb) = 0 /\ ~(qa = 0 /\ qb < 0)
                    THEN OkFloat(h, TDiv(qa * 16, qb)) ELSE Excluded("float")
     [] IsCmp(op) -> Ok(h, VBool(CmpOp(op, Sign(qa - qb))))
     [] OTHER -> Err("invalid_operation")
